@@ -29,10 +29,12 @@ EndsAtMaturity == E.times[NT] = H.maturity
 OnProductDates == IF H.mode = "fixed" THEN E.times = H.dates
                   ELSE /\ \A i \in 1..Len(H.jumps) : \E k \in 1..NT : E.times[k] = H.jumps[i][1]
 RunningSum == \A c \in 1..H.ncomp : Len(E.jump[c]) = NT /\ \A k \in 1..NT : E.jump[c][k] = JumpSum(c, E.times[k])
-\* the k-th step uses its own (k-th) Brownian increment scaled by sqrt(dt_k): (delta)^2 * TICKS / sigma^2 = dt * k^2
+\* the k-th step of dimension m (0-based) uses its own Brownian increment, the (m * steps + k)-th number drawn, scaled by
+\* sqrt(dt_k): (delta)^2 * TICKS / sigma^2 = dt * v^2.  Rows: the d fine dimensions, then the d coarse ones (same numbers).
+Variate(c, k) == ((c - 1) % H.d) * (NT - 1) + k
 DiffusionRunningSum ==
     \A c \in 1..H.ncomp : /\ Len(E.dsq[c]) = NT - 1
-                          /\ \A k \in 1..(NT - 1) : E.dsq[c][k] = (IF H.sigma = 0 THEN 0 ELSE (E.times[k + 1] - E.times[k]) * k * k)
+                          /\ \A k \in 1..(NT - 1) : E.dsq[c][k] = (IF H.sigs[c] = 0 THEN 0 ELSE (E.times[k + 1] - E.times[k]) * Variate(c, k) * Variate(c, k))
 StepCap == H.mode # "maxstep" \/ H.eps >= H.maturity \/ \A k \in 1..(NT - 1) : E.times[k + 1] - E.times[k] <= H.eps
 \* where the finding "refinement stops at the last jump" shows: the step that ends at maturity / the no-jump path
 CapSig == IF \A k \in 1..(NT - 2) : E.times[k + 1] - E.times[k] <= H.eps THEN "laststep" ELSE "inner"
